@@ -138,7 +138,7 @@ class ReuseHistory(Engine):
         from sim.engines.hashseed import ENGINE as HASHSEED
         from sim.engines.write_faults import ENGINE as WRITE_FAULTS, FAULT_KINDS
         base = HASHSEED._gen_pipeline(rng)  # pylint: disable=protected-access
-        toggles = [arg for arg in base["extra_args"] if arg in ("--clusterhmmer", "--fullhmmer", "--pfam2go", "--enable-t2pks")]
+        toggles = [arg for arg in base["extra_args"] if arg in ("--clusterhmmer", "--fullhmmer", "--pfam2go", "--enable-t2pks", "--enable-terpene")]
         scenario: Dict[str, Any] = {"records": base["records"], "hits": base["hits"], "domain_hits": base["domain_hits"],
                                     "domain_lengths": base["domain_lengths"], "fungi": rng.random() < 0.25,
                                     "toggles": toggles, "sideload_cli": base["sideload_cli"]}
